@@ -2092,7 +2092,6 @@ class CJTypeInstruction(CompressedInstruction):
 
 def read_lines(path_or_source, *, include=False, include_dirs=None):
     def lookup(path, dirs):
-        base_path = os.path.dirname(os.path.abspath(path))
         for dir in dirs:
             try_path = os.path.join(dir, path)
             if os.path.exists(try_path):
